@@ -344,13 +344,18 @@ class MQWorld:
         self.exit_reasons = {}
         self.ostats = _Counter()
         self.stall_info = None
+        self.last_activity_ns = 0
         self.net.taps.append(self._tap)
 
     # -- event log ----------------------------------------------------------------------------------------------------
 
+    ACTIVITY = frozenset(('in', 'pub', 'start', 'fault', 'life', 'emit', 'lineage'))
+
     def ev(self, kind, *items):
         s = self.sched
         self.events.append((kind, s.step, s.now) + items)
+        if kind in self.ACTIVITY:
+            self.last_activity_ns = s.now
         s.digest.add(kind, *[i for i in items if not isinstance(i, (dict, list))])
 
     def new_tok(self):
